@@ -377,6 +377,24 @@ pub fn run(ctx: &'static Ctx) {
     if ctx.thorough() {
         double_substitutions(ctx);
     }
+    // no state across calls: every ordered pair of seed messages (plus malformed ones)
+    {
+        let mut items: Vec<(String, Box<dyn Fn() -> String + Sync>)> = Vec::new();
+        let mut msgs: Vec<(String, Vec<u8>)> = all_seeds().into_iter().map(|s| (s.0, s.3)).collect();
+        msgs.push(("empty".into(), vec![]));
+        msgs.push(("truncated".into(), vec![0x01, 0xa4, 0x01]));
+        msgs.push(("unknown command".into(), vec![0x55, 0xa0]));
+        msgs.push(("long names".into(), {
+            let t = Target::Cmd(0x01);
+            let plan = Plan::new(&t.schema(), Side::Request);
+            let w = plan.build_with(plan.full_mask(), &[], &[(plan.leaf_index("/user/name"), V::t(&crate::refmodel::fill_wide(130, 4))), (plan.leaf_index("/rp/name"), V::t(&fill_text(200, 3)))]);
+            t.bytes(&w)
+        }));
+        for (label, m) in msgs {
+            items.push((label, Box::new(move || decode_request(&m).show())));
+        }
+        pair_histories(ctx, P, "decode call pairs", "every ordered pair of 75 messages decoded back to back on one thread: the second result must not depend on the first call", &items);
+    }
     ctx.require_outcomes(&["accepted", "status 0x01", "status 0x12", "status 0x14", "nesting depth >= 3000 survived"]);
     ctx.sample(json!({"bytes": "0200", "family": "all byte strings of length 2"}));
     ctx.sample(json!({"family": "nesting chain", "message": "02a3016161024005a1627a7a 81*7590 00", "oracle": "returns (unknown option skipped or error), no stack overflow"}));
